@@ -339,6 +339,15 @@ def b_copy(P, s, a, b, c, name):
     i = P.pick(s[0], is_ft)
     if i is None:
         return None
+    t0 = P.vals[i]
+    if t0.ndim == 4 and c % 3 == 0 and name in ("clone", "contiguous", "to_copy", "to_dtype"):
+        # a rank-4 tensor asked in another memory format (x.contiguous(memory_format=torch.channels_last) in a conv net)
+        mf = torch.channels_last
+        if name == "to_dtype":
+            dt = [torch.float32, torch.float16, torch.bfloat16][a % 3]
+            return dict(f=lambda t: t.to(dt, memory_format=mf), ops=[i], klass="rescale", copyop=True, dtype_move=dt)
+        f = {"clone": lambda t: t.clone(memory_format=mf), "contiguous": lambda t: t.contiguous(memory_format=mf), "to_copy": lambda t: t.to(memory_format=mf)}[name]
+        return dict(f=f, ops=[i], klass="move", copyop=True)
     if name == "clone":
         return dict(f=lambda t: t.clone(), ops=[i], klass="move", copyop=True)
     if name == "detach":
@@ -348,7 +357,10 @@ def b_copy(P, s, a, b, c, name):
     if name == "to_copy":
         return dict(f=lambda t: t.to("cpu", copy=True), ops=[i], klass="move", copyop=True)
     if name == "to_dtype":
-        dt = [torch.float32, torch.float16, torch.bfloat16, torch.float64, torch.int32, torch.int64][a % 6]
+        dt = [torch.float32, torch.float16, torch.bfloat16, torch.float64, torch.int32, torch.int64, torch.float8_e4m3fn, torch.float8_e5m2][a % 8]
+        if dt.is_floating_point and dt.itemsize == 1:
+            # an 8-bit float dtype is a dtype like another for the float program (its values are compared in float32)
+            return dict(f=lambda t: t.to(dt).to(torch.float32), ops=[i], klass="pass", dtype_move=dt)
         if not dt.is_floating_point:
             # a float tensor can be cast to an integer dtype (truncation): so can a quantized one, through its values
             return dict(f=lambda t: t.to(dt), ops=[i], klass="pass", dtype_move=dt)
@@ -395,6 +407,16 @@ def b_copy_(P, s, a, b, c, name):
             srcop = ("x", 0)
         else:
             srcop = ("p", j)
+    if isinstance(d, QBytesTensor) and d.axis is None and c % 7 in (5, 6) and d.dtype in DTYPES:
+        # a quantized source of ANOTHER 8-bit qtype, or quantized per-axis: its values (inside the destination's range) are copied
+        x = gen.clamp_finite(_values(list(d.shape), d.dtype, 4700 + b, 1.0).to(torch.float64) * float(d._scale.abs().max().to(torch.float64)) * 40, d.dtype)
+        if c % 7 == 5 or d.ndim < 2 or d.shape[0] < 2:
+            oq = [q_ for q_ in Q8 if q_ != d.qtype][b % 2]
+            sc = absmax_scale(x, oq)
+            src_ = quantize_activation(x, oq, torch.where(sc > 0, sc, torch.ones_like(sc)))
+        else:
+            src_ = quantize_weight(x, d.qtype, [0, -1][b % 2])
+        return dict(f=lambda d, s_: d.copy_(s_), ops=[("p", i), ("x", 0)], extra=[("fresh", src_)], klass="requant", inplace=0)
     srcv = extra[0][1] if srcop[0] == "x" else P.vals[srcop[1]]
     nb = c % 3 == 0  # copy_(src, non_blocking=True) is the same copy
     if isinstance(d, QBytesTensor) and c % 5 == 4:
@@ -482,6 +504,10 @@ def b_scalar(P, s, a, b, c, name):
     k = SCALARS[a % len(SCALARS)]
     if name in ("div_scalar", "rdiv_scalar") and k == 0.0:
         k = 4.0
+    if c % 11 == 10 and name in ("mul_scalar", "rmul_scalar", "div_scalar"):
+        # a complex factor: the float program returns a complex tensor
+        kc = [1j, 2 + 0j, -0.5j][a % 3]
+        return dict(f={"mul_scalar": lambda t: t * kc, "rmul_scalar": lambda t: kc * t, "div_scalar": lambda t: t / kc}[name], ops=[i], klass="pass")
     form = b % 6
     if form == 1:
         kk = torch.tensor(k, dtype=t.dtype)
@@ -513,6 +539,13 @@ def b_unary(P, s, a, b, c, name):
     if i is None:
         return None
     t = P.vals[i]
+    if name == "view_dtype":
+        if t.ndim == 0 or not t.is_contiguous() or t.dtype not in DTYPES:
+            return None
+        vd = {4: [torch.int32, torch.uint8, torch.int16], 2: [torch.int16, torch.uint8, torch.float16 if t.dtype == torch.bfloat16 else torch.bfloat16]}[t.dtype.itemsize][a % 3]
+        if vd.is_floating_point:
+            return dict(f=lambda t: t.view(vd).view(torch.int16), ops=[i], klass="pass")
+        return dict(f=lambda t: t.view(vd), ops=[i], klass="pass")
     if name == "neg":
         return dict(f=lambda t: -t, ops=[i], klass="neg")
     if name == "relu":
@@ -613,7 +646,7 @@ def b_where(P, s, a, b, c, name):
     mask = torch.rand(t.shape, generator=g) > 0.5
     form = b % 5
     if form == 0:
-        k = [0.0, -1.0, float("-inf"), 3.0][c % 4]
+        k = [0.0, -1.0, float("-inf"), 3.0, 1000.0 * (1.0 + float(deq(t).abs().max())), float(torch.finfo(t.dtype if t.dtype.is_floating_point else torch.float32).min)][c % 6]
         return dict(f=lambda t: torch.where(mask, t, k), ops=[i], klass="requant")
     if form == 1:
         # (every other time: an alternative of ANOTHER float dtype, which promotes the result like any binary float op)
@@ -644,6 +677,13 @@ def b_contract(P, s, a, b, c, name):
     k = t.shape[-1]
     p = 1 + b % 5
     dtype = t.dtype
+    if name == "linear_nobias" and c % 7 == 6:
+        # a single vector of weights (shape (in_features)): one scalar per input vector
+        xw = _values([k], dtype, 6050 + c, 1.0)
+        qt_ = Q8[a % 3]
+        sw = absmax_scale(xw, qt_)
+        w = quantize_activation(xw, qt_, torch.where(sw > 0, sw, torch.ones_like(sw)))
+        return dict(f=lambda x, w_: F.linear(x, w_), ops=[("p", i), ("x", 0)], extra=[("fresh", w)], klass="contract", contract="mm")
     if name in ("linear", "linear_nobias", "linear_nd"):
         w = fresh_partner([p, k], dtype, a, 6000 + c)
         bias = None
@@ -713,7 +753,7 @@ BUILDERS["copy_"] = b_copy_
 for _n in ("mul_scalar", "rmul_scalar", "div_scalar", "rdiv_scalar", "div_floor"):
     BUILDERS[_n] = b_scalar
 for _n in ("neg", "relu", "frelu", "softmax", "fsoftmax", "abs", "exp", "tanh", "gelu", "silu", "sum", "mean", "amax", "argmax", "sort", "cumsum",
-           "log_softmax", "layer_norm", "topk", "zeros_like", "ones_like", "sign", "square", "isfinite", "std", "masked_fill", "tolist_sum", "numel", "size", "dim", "numpy_sum", "repr"):
+           "log_softmax", "layer_norm", "topk", "zeros_like", "ones_like", "sign", "square", "isfinite", "std", "masked_fill", "tolist_sum", "numel", "size", "dim", "numpy_sum", "repr", "view_dtype"):
     BUILDERS[_n] = b_unary
 for _n in ("add", "sub", "mul_tensor", "div_tensor", "maximum", "equal", "cosine_similarity", "lt", "lt_m", "gt", "eq", "is_same_size"):
     BUILDERS[_n] = b_binary
@@ -736,7 +776,7 @@ INTERCEPTED = ["view", "reshape", "flatten", "unflatten", "t", "transpose", "per
                "fsoftmax", "where", "lt", "lt_m", "lt_scalar", "mm", "matmul2", "bmm", "matmul", "linear", "linear_nobias", "linear_nd", "pad"]
 PASSTHROUGH = ["abs", "exp", "tanh", "gelu", "silu", "sum", "mean", "amax", "argmax", "sort", "cumsum", "log_softmax", "layer_norm", "topk", "zeros_like",
                "ones_like", "sign", "square", "isfinite", "std", "masked_fill", "tolist_sum", "numel", "size", "dim", "add", "sub", "mul_tensor",
-               "div_tensor", "maximum", "equal", "cosine_similarity", "gt", "eq", "index_select", "flip", "numpy_sum", "repr", "is_same_size"]
+               "div_tensor", "maximum", "equal", "cosine_similarity", "gt", "eq", "index_select", "flip", "numpy_sum", "repr", "is_same_size", "view_dtype"]
 SEMANTIC = ["clone", "detach", "neg", "relu", "frelu", "mul_scalar", "rmul_scalar", "div_scalar", "where", "lt", "lt_m", "lt_scalar", "softmax", "copy_", "cat", "stack", "split", "t", "transpose"]
 ALLOPS = INTERCEPTED + INTERCEPTED + SEMANTIC + SEMANTIC + PASSTHROUGH + INPLACE  # intercepted ops (and those acting on codes) more likely
 
@@ -775,6 +815,8 @@ def _teq(x, y):
         return True
     if x.dtype.is_floating_point:
         return bool(((x == y) | (torch.isnan(x) & torch.isnan(y))).all())
+    if x.dtype.is_complex:
+        return _teq(torch.view_as_real(x.to(torch.complex128)), torch.view_as_real(y.to(torch.complex128)))
     return torch.equal(x, y)
 
 
@@ -885,7 +927,8 @@ def compare_tensor(out, tag, klass, res, ref, info):
         ref64, mag = info["ref64"], info["mag"]
         K = info["K"]
         tol = (K + 4) * u * mag + 3 * u * ref64.abs() + eta  # (no allowance for a scale product formed in reduced precision, D46)
-        fin = ref64.abs() + tol < gen.FMAX.get(dtype, 1e300)
+        # (representable: also every partial sum, whatever the order of the accumulation)
+        fin = torch.maximum(ref64.abs(), mag) + tol < gen.FMAX.get(dtype, 1e300)
         bad = fin & ~((d64 - ref64).abs() <= tol)
         if bool(bad.any()):
             i = int(torch.nonzero(bad.reshape(-1))[0])
@@ -1043,8 +1086,8 @@ def run_program(case, mode, out=None):
                 sa = operands[0]._scale.to(torch.float64).abs().min()
                 sb = operands[1]._scale.to(torch.float64).abs().min()
                 info["cmax2"] = float((mag / (sa * sb)).max()) / max(K, 1) if float(sa * sb) > 0 else 1.0
-        if klass == "requant" and inplace is not None and name != "copy_":
-            info["nosat"] = True
+        if klass == "requant" and ((inplace is not None and name != "copy_") or name == "where"):
+            info["nosat"] = True  # the result either carries its own scale or stays float: nothing may saturate
         if klass in ("rescale", "neg"):
             src = operands[0]
             info["factor"] = r.get("factor", 1.0)
